@@ -91,7 +91,7 @@ def gen(seed, tier):
     }
     if rng.random() < 0.2:
         # a chain whose protocol parameters differ from the stock ones (a sandbox with custom parameters, a future protocol)
-        cfg['constants'] = {'hard_gas_limit_per_operation': rng.choice(['520000', '2000000', '4160000']), 'hard_storage_limit_per_operation': rng.choice(['60000', '30000'])}
+        cfg['constants'] = {'hard_gas_limit_per_operation': rng.choice(['520000', '2000000', '4160000', '20000000']), 'hard_storage_limit_per_operation': rng.choice(['60000', '30000'])}
     if rng.random() < 0.2:
         # a live chain: blocks arrive while a client call is in flight (slow link), and the same contract call costs a little more
         # gas at every new head (its storage grows)
